@@ -11,7 +11,7 @@ import (
 )
 
 func init() {
-	jobs = append(jobs, job{props: []string{"C19"}, fn: genC19State})
+	jobs = append(jobs, job{props: []string{"C19", "C15"}, fn: genC19State})
 }
 
 // decPkgState analyses one package: the functions reachable (by calls to
@@ -19,11 +19,12 @@ func init() {
 // roots, and every write they make to a package-level variable: assignment
 // to it, to an element / field of it, ++/--, delete(v, …), or taking a
 // pointer-less mutation through an index expression.
-func decPkgState(dir string, roots []string) (reach []string, writes []string) {
+func decPkgState(dir string, roots []string) (reach []string, writes []string, used []string) {
 	files := pkgFiles(dir)
 	funcs := map[string]*ast.FuncDecl{}     // plain functions by name
 	methods := map[string][]*ast.FuncDecl{} // methods by name (any receiver)
 	pkgVars := map[string]bool{}
+	varKind := map[string]string{} // declared type or shape of the initialiser
 	topSpecs := map[*ast.ValueSpec]bool{}
 	for _, f := range files {
 		for _, d := range f.Decls {
@@ -41,8 +42,27 @@ func decPkgState(dir string, roots []string) (reach []string, writes []string) {
 				for _, s := range x.Specs {
 					vs := s.(*ast.ValueSpec)
 					topSpecs[vs] = true
-					for _, n := range vs.Names {
+					for i, n := range vs.Names {
 						pkgVars[n.Name] = true
+						switch {
+						case vs.Type != nil:
+							varKind[n.Name] = exprString(vs.Type)
+						case i < len(vs.Values):
+							switch v := vs.Values[i].(type) {
+							case *ast.CompositeLit:
+								varKind[n.Name] = exprString(v.Type)
+							case *ast.CallExpr:
+								varKind[n.Name] = "call " + exprString(v.Fun)
+							case *ast.UnaryExpr:
+								if cl, ok := v.X.(*ast.CompositeLit); ok {
+									varKind[n.Name] = "&" + exprString(cl.Type)
+								} else {
+									varKind[n.Name] = "expr"
+								}
+							default:
+								varKind[n.Name] = "expr"
+							}
+						}
 					}
 				}
 			}
@@ -143,9 +163,14 @@ func decPkgState(dir string, roots []string) (reach []string, writes []string) {
 		}
 		return nil
 	}
+	usedSet := map[string]bool{}
 	for k, fd := range seen {
 		reach = append(reach, k)
 		ast.Inspect(fd.Body, func(n ast.Node) bool {
+			// every package-level variable the function mentions at all
+			if id, ok := n.(*ast.Ident); ok && isPkgVar(id) {
+				usedSet[id.Name+" : "+varKind[id.Name]] = true
+			}
 			note := func(e ast.Expr, how string) {
 				if id := base(e); id != nil && isPkgVar(id) {
 					writes = append(writes, fmt.Sprintf("%s/%s: %s %s", dir, k, how, id.Name))
@@ -174,8 +199,12 @@ func decPkgState(dir string, roots []string) (reach []string, writes []string) {
 			return true
 		})
 	}
+	for u := range usedSet {
+		used = append(used, u)
+	}
 	sort.Strings(reach)
 	sort.Strings(writes)
+	sort.Strings(used)
 	return
 }
 
@@ -187,12 +216,14 @@ func genC19State() {
 	l := newLean("C19State", "order/rpc_parse.go and sidecar codec: intra-package call graph of the parsers / decoders "+
 		"and the writes to package-level variables found in it.")
 	l.p("namespace Pool.Gen.C19")
-	orderReach, orderWrites := decPkgState("order", []string{"ParseRPCBatch", "ParseRPCMatchedOrders",
+	orderReach, orderWrites, orderUsed := decPkgState("order", []string{"ParseRPCBatch", "ParseRPCMatchedOrders",
 		"ParseRPCServerAsk", "ParseRPCServerBid", "ParseRPCServerOrder", "parseNodeAddrs", "ParseRPCSign"})
-	sidecarReach, sidecarWrites := decPkgState("sidecar", []string{"DecodeString", "DeserializeTicket",
+	sidecarReach, sidecarWrites, sidecarUsed := decPkgState("sidecar", []string{"DecodeString", "DeserializeTicket",
 		"EncodeToString", "SerializeTicket"})
 	l.p("def orderParseCallGraph : List String := %s", leanStrList(orderReach))
 	l.p("def sidecarCodecCallGraph : List String := %s", leanStrList(sidecarReach))
+	l.p("def orderParseVars : List String := %s", leanStrList(orderUsed))
+	l.p("def sidecarCodecVars : List String := %s", leanStrList(sidecarUsed))
 	l.p("def parserStateWrites : List String := %s", leanStrList(append(orderWrites, sidecarWrites...)))
 	_ = strings.Join
 	l.p("end Pool.Gen.C19")
